@@ -140,8 +140,16 @@ def specs(tier, seed):
       pairs[1::3, 0] = pairs[0, 0]
     y = np.where(rng.rand(n) < (0.5, 0.7, 0.85)[int(rng.randint(3))], 1, -1)
     y[0], y[1] = 1, -1
+    storage = {}
+    if k % 6 == 2:
+      # the same numbers held in a narrow floating-point dtype: 8-bit grey levels (exact in float16, and so are their differences); the
+      # documented matrix is that of the NUMBERS -- sums of 65025-sized products must not be accumulated in float16
+      pairs = np.round(rng.rand(n, 2, d) * 255.0)
+      storage['pairs_dtype'] = ('float16', 'float32')[(k // 6) % 2]
+    if prior == 'array' and k % 2 == 1:
+      storage['prior_dtype'] = 'float32'
     out.append(dict(index=k, d=d, prior=prior, regime=regime, pairs=pairs, y=y, alpha=ALPHAS[int(rng.randint(len(ALPHAS)))],
-                    level=int(rng.randint(3)), prior_seed=int(rng.randint(1 << 30)), bp_free=(0.05, 0.5, 3.0)[int(rng.randint(3))]))
+                    level=int(rng.randint(3)), prior_seed=int(rng.randint(1 << 30)), bp_free=(0.05, 0.5, 3.0)[int(rng.randint(3))], **storage))
   for k, prior in enumerate(PRIORS if tier != 'quick' else PRIORS[:2]):
     pairs = rng.randn(8, 2, 1)
     y = np.array([1, -1] * 4)
@@ -154,8 +162,23 @@ def prior_argument(spec):
   from sklearn.datasets import make_spd_matrix
   if spec['prior'] == 'array':
     A = make_spd_matrix(spec['d'], random_state=spec['prior_seed']) if spec['d'] > 1 else np.array([[1.5]])
-    return A * (0.5, 1.0, 3.0)[spec['prior_seed'] % 3]
+    A = A * (0.5, 1.0, 3.0)[spec['prior_seed'] % 3]
+    if spec.get('prior_dtype') == 'float32':
+      A = A.astype(np.float32).astype(float)       # the numbers a float32 matrix can hold (handed over as float32 by `handed_prior`)
+      A = (A + A.T) / 2
+    return A
   return spec['prior']
+
+
+def handed_prior(spec, prior):
+  """the prior argument in the storage the instance names"""
+  if isinstance(prior, np.ndarray) and spec.get('prior_dtype') == 'float32':
+    return prior.astype(np.float32)
+  return prior
+
+
+def handed_pairs(spec):
+  return spec['pairs'].astype(spec['pairs_dtype']) if spec.get('pairs_dtype') else spec['pairs']
 
 
 def build(spec):
@@ -192,8 +215,10 @@ def build(spec):
 
 
 def describe(spec):
-  return 'SDML d=%d prior=%s regime=%s alpha=%g level=%d #%d' % (spec['d'], spec['prior'], spec['regime'], spec['alpha'],
-                                                                  spec['level'], spec['index'])
+  return 'SDML d=%d prior=%s regime=%s alpha=%g level=%d #%d%s%s' % (spec['d'], spec['prior'], spec['regime'], spec['alpha'],
+                                                                      spec['level'], spec['index'],
+                                                                      ' pairs as ' + spec['pairs_dtype'] if spec.get('pairs_dtype') else '',
+                                                                      ' prior as float32' if spec.get('prior_dtype') and spec['prior'] == 'array' else '')
 
 
 def check(spec):
@@ -210,11 +235,15 @@ def check(spec):
   def bad(tag, observed):
     return dict(tag=tag, observed=observed, input=inp, klass='SDML prior=%s S=%s: %s' % (spec['prior'], kind if spec['d'] > 1 else 'd1', tag))
 
-  est = ml.SDML(balance_param=bp, sparsity_param=alpha, prior=prior, random_state=spec['prior_seed'])
+  if spec.get('pairs_dtype'):
+    inp['pairs_given_as'] = spec['pairs_dtype']
+  if spec.get('prior_dtype') and isinstance(prior, np.ndarray):
+    inp['prior_given_as'] = spec['prior_dtype']
+  est = ml.SDML(balance_param=bp, sparsity_param=alpha, prior=handed_prior(spec, prior), random_state=spec['prior_seed'])
   with warnings.catch_warnings(record=True) as caught:
     warnings.simplefilter('always')
     try:
-      est.fit(spec['pairs'], spec['y'])
+      est.fit(handed_pairs(spec), spec['y'])
       raised = None
     except Exception as e:     # classified below
       raised = e
